@@ -30,6 +30,7 @@ func (s *svidSource) GetX509SVID() (*x509svid.SVID, error) {
 	s.spiffe.lock.RLock()
 	defer s.spiffe.lock.RUnlock()
 
+	verifPoint("getsvid.rlocked")
 	<-s.spiffe.readyCh
 
 	svid := s.spiffe.currentSVID
